@@ -14,6 +14,7 @@
 package main
 
 import (
+	"context"
 	"encoding/json"
 	"fmt"
 	"os"
@@ -75,7 +76,7 @@ func main() {
 		core.Fatalf("no cycles printed")
 	}
 	for _, c := range cy.Cases {
-		var tf struct{ Type, Field string }
+		var tf struct{ Type, Field, Size string }
 		if err := json.Unmarshal([]byte(c), &tf); err != nil {
 			core.Fatalf("bad cycle %q", c)
 		}
@@ -83,11 +84,12 @@ func main() {
 		if !ok {
 			core.Fatalf("extracted type %s has no registry entry", tf.Type)
 		}
-		cycle(e, tf.Field)
+		cycle(e, tf.Field, tf.Size)
 	}
 	// all fields at once, twice (what a released tree of another query leaves behind)
 	for _, e := range registry {
-		cycle(e, "*")
+		cycle(e, "*", "few")
+		cycle(e, "*", "many")
 	}
 
 	// the expression-slice pool has no struct: a slice put with content must come back empty with no element kept
@@ -176,9 +178,14 @@ func populate(v reflect.Value, depth int) {
 		if depth > 2 {
 			return
 		}
-		s := reflect.MakeSlice(v.Type(), 2, 4)
-		populate(s.Index(0), depth+1)
-		populate(s.Index(1), depth+1)
+		n := 2
+		if depth == 0 {
+			n = sliceLen
+		}
+		s := reflect.MakeSlice(v.Type(), n, n+2)
+		for i := 0; i < n; i++ {
+			populate(s.Index(i), depth+1)
+		}
 		v.Set(s)
 	case reflect.Map:
 		if v.Type().Key().Kind() == reflect.String && depth <= 2 {
@@ -210,7 +217,11 @@ func isZeroContent(v reflect.Value) bool {
 	return v.IsZero()
 }
 
-func cycle(e poolEntry, field string) {
+var sliceLen = 2
+
+func cycle(e poolEntry, field, size string) {
+	sliceLen = map[string]int{"few": 2, "many": 100, "huge": 1500}[size]
+	defer func() { sliceLen = 2 }()
 	// drain: make sure the pool hands us the node we put
 	obj := e.Get()
 	rv := reflect.ValueOf(obj).Elem()
@@ -233,7 +244,7 @@ func cycle(e poolEntry, field string) {
 		e.Put(obj)
 		return
 	}
-	run.Nontrivial(e.Type + "." + field)
+	run.Nontrivial(e.Type + "." + field + "." + size)
 	e.Put(obj)
 	got := e.Get()
 	same := got == obj
@@ -250,7 +261,7 @@ func cycle(e poolEntry, field string) {
 	}
 	for _, d := range dirty {
 		run.Violate(core.Violation{Sig: "pooled-node-dirty|" + e.Type + "." + d, Clause: "a node obtained from the pools is indistinguishable from a freshly constructed one",
-			Case: map[string]any{"kind": "cycle", "type": e.Type, "populated": targets}, Observe: fmt.Sprintf("%v", gv.FieldByName(d).Interface())})
+			Case: map[string]any{"kind": "cycle", "type": e.Type, "populated": targets, "size": size}, Observe: firstN(fmt.Sprintf("%v", gv.FieldByName(d).Interface()), 300)})
 	}
 	// hand back a clean node so that later cycles start from a clean pool
 	gv.Set(reflect.Zero(gv.Type()))
@@ -273,6 +284,27 @@ var kindSQL = map[string][]string{
 	"tuple":  {"SELECT a FROM t WHERE (a, b) IN ((1, 2), (3, 4))", "SELECT ARRAY[1, 2, 3], (x, y) FROM t"},
 }
 var failSQL = map[string]string{"select": "SELECT a FROM t WHERE (a, b) IN ((1, 2), (3, ", "insert": "INSERT INTO t (a) VALUES (1, (2, 3", "tuple": "SELECT ARRAY[1, (2, 3), FROM"}
+
+type countCtx struct {
+	context.Context
+	n, fireAt int
+}
+
+func (c *countCtx) Err() error {
+	c.n++
+	if c.n > c.fireAt {
+		return context.Canceled
+	}
+	return nil
+}
+func (c *countCtx) Done() <-chan struct{} {
+	if c.n >= c.fireAt {
+		ch := make(chan struct{})
+		close(ch)
+		return ch
+	}
+	return nil
+}
 
 type holding struct {
 	tree     *ast.AST
@@ -349,6 +381,13 @@ func replay(hist []hstep, idx int) {
 					}
 				}
 				// the client keeps the node: it is never put back
+			}
+		case "parsecancel":
+			// a context that reports cancellation from its n-th poll on; n rotates so that every poll point of the
+			// statement is hit many times over the histories
+			ctx := &countCtx{Context: context.Background(), fireAt: (idx + i*7) % 24}
+			if tree, err := gosqlx.ParseWithContext(ctx, kindSQL[s.Kind][0]+"; "+kindSQL[s.Kind][1]); err == nil {
+				ast.ReleaseAST(tree)
 			}
 		case "parsefail":
 			if tree, err := gosqlx.Parse(failSQL[s.Kind]); err == nil {
